@@ -1,4 +1,5 @@
 """C19 - rendering is total and shows the model at the selected time."""
+import copy
 import dataclasses
 import inspect
 import itertools
@@ -698,6 +699,7 @@ def s_propagation(tier):
                 "replace": st.one_of(st.none(), st.sampled_from(nested)) if nested else st.none(),
                 "mode": st.sampled_from(["setattr", "setattr", "setitem", "ctor"]),
                 "then": st.one_of(st.none(), st.sampled_from(VALUES["int"])),
+                "root_copy": st.sampled_from([None, None, None, "deepcopy", "copy", "pickle"]),
             }))
         deep = [r for r in rows if any(len(o[0]) > len(r[0]) and o[0][:len(r[0])] == r[0] for o in rows)]
         return (st.one_of(st.sampled_from(rows), st.sampled_from(deep), st.sampled_from(deep)) if deep
@@ -727,6 +729,12 @@ def check_propagation(r, ctx):
         ctx.label("ctor")
     else:
         root = cls()
+        if r.get("root_copy"):
+            # the parameter set in use is a copy (parameter sets are copied for every frame of an animation)
+            import pickle as _pickle
+            root = (copy.deepcopy(root) if r["root_copy"] == "deepcopy" else copy.copy(root) if r["root_copy"] == "copy"
+                    else _pickle.loads(_pickle.dumps(root)))
+            ctx.label("root-is-a-" + r["root_copy"])
         if r["replace"] is not None:
             holder = root
             for k in r["replace"][:-1]:
